@@ -11,8 +11,8 @@ META = {
     "technique": "Rocq proof over hand-written Gallina models + correspondence. (1) Circuit::simplify: model of the DFS simplifier (folding, de-duplication, structural hashing) + proved-correct executable checkers (normal form, truth-table equivalence, gate-map consistency, error condition), extracted and run on the output of the real simplify for exhaustive small and random larger circuits; model output compared with the implementation's. (2) AIGER reader: executable model of aiger::parse for BOTH formats over byte lists (coq/IO/AigerParse.v: header, inputs, latches with reset, outputs/bad/constraints/justice/fairness, AND gates as three literals or two 7-bit deltas with the 64-bit wrapping shift, variable map, undefined-literal and cycle check, symbol table, comment) with printers print_aag / print_aig; theorems: totality for all byte strings, round trips, ASCII/binary equivalence, well-formedness and topological order of every accepted binary file; tie: the extracted model runs on the same bytes as the real parser -- on aag/aig pairs that the MODEL's printers write from generated well-formed problems and on every truncation / byte substitution / insertion / deletion / stacked random edit of the AIGER seeds -- and the parsed problems are compared field by field (release and debug profile). (3) DIMACS CNF reader (options without variable order / clause tree): model coq/IO/DimacsParse.v, totality and round-trip theorem, same differential tie. (4) C18q, the remaining readers: executable models of util::tree / util::var_order_record and the variable-order preamble shared by nnf.rs and dimacs.rs (coq/IO/TreeParse.v: order tree, clause tree, records with names incl. the UTF-8 and uniqueness checks, the checks around the problem line, the cleanup of the names vector), of nnf::parse (coq/IO/NnfParse.v: problem line, A/B/X/O/L lines with nom's i64, node numbering, the map from node numbers to literals, cycle check) and of the complete dimacs::parse (coq/IO/DimacsSatParse.v: all five formats with the code's const SATE, cnf::parse with make_conj_tree, sat::lex / sat::formula with the Rpar error that ends an operand loop) with printers; theorems: totality for all byte strings and all options, what every accepted file satisfies (VarSet::check_valid, order = permutation of the variables / flattened tree, NNF literals in range, acyclic under check_acyclic), round trips parse(print p) = Ok p; tie: the extracted models run on the same bytes as nnf::parse / dimacs::parse under every option mask -- on files the MODEL's printers write from generated well-formed problems and on every truncation / substitution / insertion / deletion / stacked random edit of 38 seeds -- accept/reject decision and every field (number of variables, linear order, order tree, names, gates, root) compared, release and debug profile. The generic mutation search under catch_unwind (ops P/B) stays as an additional stream.",
     "category": "proof",
     "design_ref": "DESIGN.md section 5, C18",
-    "level_text": "Theorems (coq/Props/C18.v, 56, all closed under the global context). Circuit::simplify (15): the run-time audits decide the property's predicates (C18_nf_b_spec, C18_equiv_b_spec for EVERY assignment, C18_defined_b_spec, C18_map_consistent_b_spec, C18_closed_b_spec, C18_should_err_b_spec); the model simplifier returns a circuit in normal form (C18_simp_nf) in which every literal over reachable gates denotes the same function through the gate map (C18_simp_equiv, C18_simp_map_consistent), Ok only without reachable cycle / unknown input (C18_simp_ok_no_err_condition), Err exactly in that case and justified (C18_simp_err_iff, C18_simp_err_justified), never Crash/Fuel on closed circuits (C18_simp_total); C18_dedup_sem. AIGER (14): C18_aiger_parse_total -- for ALL byte strings and both values of check_acyclic the model reader returns a problem or a diagnostic, the fuel of its loops (input length + 1) is never exhausted (C18_aiger_loop_fuel_irrelevant: more fuel never changes a loop's result); C18_aiger_varint_roundtrip / C18_aiger_bin_and_roundtrip -- the 7-bit delta codec for every size below 2^64 including the 64-bit wrapping shift of usize_7bit; C18_aiger_symbol_table_roundtrip; C18_aiger_aag_roundtrip / C18_aiger_aig_roundtrip -- for every well-formed problem p (decidable wf_b: variables numbered inputs, latches, AND gates in order with rhs1 <= rhs0 < lhs, literals in range, counts <= MAX_CAPACITY, default variable map, names without line breaks / leading / trailing blanks; any numbers of inputs, latches with reset 0/1/own literal, outputs, bad, constraints, justice lists, fairness, gates, names) parse(print_aag p) = Ok p and parse(print_aig p) = Ok p; C18_aiger_aag_aig_equiv -- the two files parse to the same problem; C18_aiger_aig_then_aag -- EVERY accepted binary file yields a problem whose ASCII print parses to the same problem again (hypothesis syms_ok on the shape of the symbol names, shown necessary by C18_aiger_syms_ok_needed); C18_aiger_bin_topo -- the gates of every accepted binary file are topologically ordered, pass the acyclicity test and have no cyclic dependency (transitive closure); C18_aiger_acyclic_b_sound -- the acyclicity test (the model's counterpart of Circuit::find_cycle) is sound for arbitrary gate lists; C18_aiger_accepted_acyclic -- every problem accepted with check_acyclic = true, ASCII or binary, has no gate depending on itself; C18_aiger_wf_example -- the hypotheses hold for a concrete non-trivial problem. DIMACS CNF (2): C18_dimacs_cnf_total (all byte strings), C18_dimacs_cnf_roundtrip (a printed CNF with empty / unit / XOR clauses is read back as exactly the circuit cnf::parse builds). Trees and preamble (10): C18_tree_total (util::tree never exhausts fuel 2*length+1, all byte strings, both flags), C18_tree_accept (an accepted tree has a leaf, the reported maximum is the maximal leaf, every number up to it occurs, with unique_leaves none twice), C18_tree_order_perm (the flattened order tree is a permutation of the variables mentioned = 0..max), C18_tree_roundtrip (every printable tree: numbers <= MAX_CAPACITY, no inner node with exactly one child -- the reader flattens [[42]] --, leaves cover 0..max), C18_tree_bitset_complete_spec, C18_tree_preamble_total (the loop over 'c vo' / 'c co' / 'c <var> [<name>]' lines never exhausts fuel > length), C18_tree_varset_valid (the variable set of EVERY accepted preamble satisfies the three assertions of VarSet::check_valid -- the debug assertion of the real code --, has no name beyond the number of variables, its linear order is empty or a permutation of all variables and equals the flattened tree if there is one), C18_tree_preamble_roundtrip (the lines written for any well-formed variable set -- order tree, linear order in any permutation, names: non-empty, trimmed, valid UTF-8, distinct -- are read back as that variable set), C18_tree_acyclic_g_sound / C18_tree_acyclic_g_topo (the n-ary counterpart of Circuit::find_cycle). NNF (7): C18_nnf_total (all byte strings, var_order and check_acyclic arbitrary), C18_nnf_accept (every accepted file: valid variable set, every gate has an input, every gate input is a constant / an input literal below the number of variables / a POSITIVE reference to an EXISTING gate, the root is the last node, and with check_acyclic no gate depends on itself in the transitive closure), C18_nnf_forward_reference_accepted (the code does not require references to point backwards -- nnf.rs says so in a comment -- hence 'acyclic' and not 'backwards' is the theorem), C18_nnf_roundtrip / C18_nnf_roundtrip_var_order (parse(print p) = Ok p for every well-formed p incl. forward references, root = constant / literal / last gate, any well-formed variable set), C18_nnf_wf_example. Complete DIMACS (9): C18_sat_total (all byte strings, all options, all five formats), C18_sat_accept_varset, C18_sat_roundtrip / C18_sat_roundtrip_var_order (SAT formulas as syntax trees: n-ary * + xor =, -v, -(f), (f), empty and unary operators; read back as exactly the circuit sat::formula builds, with and without preamble), C18_sat_sate_rejects_eq (the code's const SATE has eq = false: '=' in a 'p sate' file is a diagnostic; model = code), C18_sat_cnf_roundtrip / C18_sat_cnf_roundtrip_trees (CNF through the complete model, behind variable order and / or clause tree: the AND gates of make_conj_tree), C18_sat_cnf_example, C18_sat_example. Correspondence C18q (quick tier, both profiles): ~96 000 NNF and ~214 000 DIMACS inputs mutated from 38 seeds under all option masks + 18 000 files written by the model's printers (3 000 NNF problems, 3 000 SAT formulas, 3 000 CNFs with clause tree; order trees / permuted linear orders / names), accept/reject and every field equal, 0 differences. Correspondence C18p (quick tier): ~215 000 AIGER inputs (8 000 generated aag/aig files of 4 000 well-formed problems incl. two-/three-byte deltas and names, all accepted and pairwise equal; ~199 000 mutated inputs: accept/reject decision and every field of the accepted problem equal to the model's, in release and debug profile) and ~169 000 DIMACS inputs; circuits as before.",
-    "level_note": "Trusted: Coq kernel, extraction, OCaml drivers (hex conversion, the textual dump format, UTF-8 validity test, generators), Rust harness (dump_aiger reads the fields without public accessor -- bad, invariants, justice, fairness, name vectors -- from the Debug text of AIGERDetails). The models are hand-written; what ties them to the code is the differential run, not a proof about nom. Model vs. code: the ASCII branch reads a section before it runs the 'second definition' checks (the code interleaves them; only accept/reject is observable); Circuit::find_cycle is modelled by iterated marking (acyclic_b, same predicate); names are byte strings in the model, the code converts them with String::from_utf8_lossy -- names that are not valid UTF-8 are not compared (counted: aig_names_not_utf8); header counts size allocations in the code and list lengths in the model, inputs with numbers of 6+ digits are skipped in the differential streams (allocation failure for absurd counts is the recorded known finding); the u32 shift counter of usize_7bit and stack depth are not modelled (three probes S run the real parsers on inputs of depth 100000 in a thread with the default stack size). PARTIAL: the 'no panic' half of the property rests on the differential run for all readers (the theorems are about the hand-written models: totality = the model returns a problem or a diagnostic); completeness of the acyclicity tests (acyclic => accepted) is proved for topologically ordered gate lists only, soundness for all; for accepted SAT / CNF files the range of the literals is not stated as a theorem (it is for NNF); model vs. code in C18q: the NNF model reads all lines and then numbers the gates (the code pushes gates while reading; same result), the FixedBitSet of util::tree is a list (the short cut of its completeness test is proved equivalent), names are byte lists with a Gallina UTF-8 validity test (RFC 3629) instead of std::str::from_utf8, inputs with numbers of 6+ digits are skipped in the streams (allocation known finding), nesting depth of generated trees / formulas <= 4 (stack known finding). const SATE = {xor:false, eq:false} in dimacs.rs makes 'p sate' files reject '=' with a diagnostic: modelled as it is, not a panic, outside the property text, mentioned in notes/C18q.md. Defects found and fixed: TVBitVec (latch reset values; found by the field-by-field comparison with the model) -- /repo commit cc9131a, corpus/C18/f19-aiger-latch-reset-values.case; Circuit::find_cycle recursing once per gate of a chain (stack overflow on a valid 1.4 MB aag file; found while modelling it) -- /repo commit f0a4345, corpus/C18/f20-find-cycle-stack-depth.case. Recorded known finding: stack overflow for deeply nested order / clause trees and SAT formulas (probe op S, corpus/C18/stack-nesting-depth.case).",
+    "level_text": "Theorems (coq/Props/C18.v, 57, all closed under the global context). Circuit::simplify (15): the run-time audits decide the property's predicates (C18_nf_b_spec, C18_equiv_b_spec for EVERY assignment, C18_defined_b_spec, C18_map_consistent_b_spec, C18_closed_b_spec, C18_should_err_b_spec); the model simplifier returns a circuit in normal form (C18_simp_nf) in which every literal over reachable gates denotes the same function through the gate map (C18_simp_equiv, C18_simp_map_consistent), Ok only without reachable cycle / unknown input (C18_simp_ok_no_err_condition), Err exactly in that case and justified (C18_simp_err_iff, C18_simp_err_justified), never Crash/Fuel on closed circuits (C18_simp_total); C18_dedup_sem. AIGER (14): C18_aiger_parse_total -- for ALL byte strings and both values of check_acyclic the model reader returns a problem or a diagnostic, the fuel of its loops (input length + 1) is never exhausted (C18_aiger_loop_fuel_irrelevant: more fuel never changes a loop's result); C18_aiger_varint_roundtrip / C18_aiger_bin_and_roundtrip -- the 7-bit delta codec for every size below 2^64 including the 64-bit wrapping shift of usize_7bit; C18_aiger_symbol_table_roundtrip; C18_aiger_aag_roundtrip / C18_aiger_aig_roundtrip -- for every well-formed problem p (decidable wf_b: variables numbered inputs, latches, AND gates in order with rhs1 <= rhs0 < lhs, literals in range, counts <= MAX_CAPACITY, default variable map, names without line breaks / leading / trailing blanks; any numbers of inputs, latches with reset 0/1/own literal, outputs, bad, constraints, justice lists, fairness, gates, names) parse(print_aag p) = Ok p and parse(print_aig p) = Ok p; C18_aiger_aag_aig_equiv -- the two files parse to the same problem; C18_aiger_aig_then_aag -- EVERY accepted binary file yields a problem whose ASCII print parses to the same problem again (hypothesis syms_ok on the shape of the symbol names, shown necessary by C18_aiger_syms_ok_needed); C18_aiger_bin_topo -- the gates of every accepted binary file are topologically ordered, pass the acyclicity test and have no cyclic dependency (transitive closure); C18_aiger_acyclic_b_sound -- the acyclicity test (the model's counterpart of Circuit::find_cycle) is sound for arbitrary gate lists; C18_aiger_accepted_acyclic -- every problem accepted with check_acyclic = true, ASCII or binary, has no gate depending on itself; C18_aiger_wf_example -- the hypotheses hold for a concrete non-trivial problem. DIMACS CNF (2): C18_dimacs_cnf_total (all byte strings), C18_dimacs_cnf_roundtrip (a printed CNF with empty / unit / XOR clauses is read back as exactly the circuit cnf::parse builds). Trees and preamble (10): C18_tree_total (util::tree never exhausts fuel 2*length+1, all byte strings, both flags), C18_tree_accept (an accepted tree has a leaf, the reported maximum is the maximal leaf, every number up to it occurs, with unique_leaves none twice), C18_tree_order_perm (the flattened order tree is a permutation of the variables mentioned = 0..max), C18_tree_roundtrip (every printable tree: numbers <= MAX_CAPACITY, no inner node with exactly one child -- the reader flattens [[42]] --, leaves cover 0..max), C18_tree_bitset_complete_spec, C18_tree_preamble_total (the loop over 'c vo' / 'c co' / 'c <var> [<name>]' lines never exhausts fuel > length), C18_tree_varset_valid (the variable set of EVERY accepted preamble satisfies the three assertions of VarSet::check_valid -- the debug assertion of the real code --, has no name beyond the number of variables, its linear order is empty or a permutation of all variables and equals the flattened tree if there is one), C18_tree_preamble_roundtrip (the lines written for any well-formed variable set -- order tree, linear order in any permutation, names: non-empty, trimmed, valid UTF-8, distinct -- are read back as that variable set), C18_tree_acyclic_g_sound / C18_tree_acyclic_g_topo (the n-ary counterpart of Circuit::find_cycle). NNF (7): C18_nnf_total (all byte strings, var_order and check_acyclic arbitrary), C18_nnf_accept (every accepted file: valid variable set, every gate has an input, every gate input is a constant / an input literal below the number of variables / a POSITIVE reference to an EXISTING gate, the root is the last node, and with check_acyclic no gate depends on itself in the transitive closure), C18_nnf_forward_reference_accepted (the code does not require references to point backwards -- nnf.rs says so in a comment -- hence 'acyclic' and not 'backwards' is the theorem), C18_nnf_roundtrip / C18_nnf_roundtrip_var_order (parse(print p) = Ok p for every well-formed p incl. forward references, root = constant / literal / last gate, any well-formed variable set), C18_nnf_wf_example. Complete DIMACS (10): C18_sat_total (all byte strings, all options, all five formats), C18_sat_accept_varset, C18_sat_accept_topo (EVERY accepted DIMACS file, CNF or SAT, with or without clause tree: gate k reads only input variables below the number of variables and gates with a smaller number, the root is in range -- the circuit is closed, topologically ordered, acyclic), C18_sat_roundtrip / C18_sat_roundtrip_var_order (SAT formulas as syntax trees: n-ary * + xor =, -v, -(f), (f), empty and unary operators; read back as exactly the circuit sat::formula builds, with and without preamble), C18_sat_sate_rejects_eq (the code's const SATE has eq = false: '=' in a 'p sate' file is a diagnostic; model = code), C18_sat_cnf_roundtrip / C18_sat_cnf_roundtrip_trees (CNF through the complete model, behind variable order and / or clause tree: the AND gates of make_conj_tree), C18_sat_cnf_example, C18_sat_example. Correspondence C18q (quick tier, both profiles): ~96 000 NNF and ~214 000 DIMACS inputs mutated from 38 seeds under all option masks + 18 000 files written by the model's printers (3 000 NNF problems, 3 000 SAT formulas, 3 000 CNFs with clause tree; order trees / permuted linear orders / names), accept/reject and every field equal, 0 differences. Correspondence C18p (quick tier): ~215 000 AIGER inputs (8 000 generated aag/aig files of 4 000 well-formed problems incl. two-/three-byte deltas and names, all accepted and pairwise equal; ~199 000 mutated inputs: accept/reject decision and every field of the accepted problem equal to the model's, in release and debug profile) and ~169 000 DIMACS inputs; circuits as before.",
+    "level_note": "Trusted: Coq kernel, extraction, OCaml drivers (hex conversion, the textual dump format, UTF-8 validity test, generators), Rust harness (dump_aiger reads the fields without public accessor -- bad, invariants, justice, fairness, name vectors -- from the Debug text of AIGERDetails). The models are hand-written; what ties them to the code is the differential run, not a proof about nom. Model vs. code: the ASCII branch reads a section before it runs the 'second definition' checks (the code interleaves them; only accept/reject is observable); Circuit::find_cycle is modelled by iterated marking (acyclic_b, same predicate); names are byte strings in the model, the code converts them with String::from_utf8_lossy -- names that are not valid UTF-8 are not compared (counted: aig_names_not_utf8); header counts size allocations in the code and list lengths in the model, inputs with numbers of 6+ digits are skipped in the differential streams (allocation failure for absurd counts is the recorded known finding); the u32 shift counter of usize_7bit and stack depth are not modelled (three probes S run the real parsers on inputs of depth 100000 in a thread with the default stack size). PARTIAL: the 'no panic' half of the property rests on the differential run for all readers (the theorems are about the hand-written models: totality = the model returns a problem or a diagnostic); completeness of the acyclicity tests (acyclic => accepted) is proved for topologically ordered gate lists only, soundness for all; model vs. code in C18q: the NNF model reads all lines and then numbers the gates (the code pushes gates while reading; same result), the FixedBitSet of util::tree is a list (the short cut of its completeness test is proved equivalent), names are byte lists with a Gallina UTF-8 validity test (RFC 3629) instead of std::str::from_utf8, inputs with numbers of 6+ digits are skipped in the streams (allocation known finding), nesting depth of generated trees / formulas <= 4 (stack known finding). const SATE = {xor:false, eq:false} in dimacs.rs makes 'p sate' files reject '=' with a diagnostic: modelled as it is, not a panic, outside the property text, mentioned in notes/C18q.md. Defects found and fixed: TVBitVec (latch reset values; found by the field-by-field comparison with the model) -- /repo commit cc9131a, corpus/C18/f19-aiger-latch-reset-values.case; Circuit::find_cycle recursing once per gate of a chain (stack overflow on a valid 1.4 MB aag file; found while modelling it) -- /repo commit f0a4345, corpus/C18/f20-find-cycle-stack-depth.case. Recorded known finding: stack overflow for deeply nested order / clause trees and SAT formulas (probe op S, corpus/C18/stack-nesting-depth.case).",
 }
 ALLOWED_AXIOMS = ()
 MODEL_VOS = ["Base/Conv.vo", "IO/Circuit.vo", "IO/Aiger.vo", "IO/AigerParse.vo", "IO/DimacsParse.vo",
